@@ -34,6 +34,8 @@ mod store;
 mod util;
 
 pub use crate::{metrics::Metrics, server::Server};
+#[cfg(n0_computer_iroh_verif)]
+pub use crate::store::verif_hooks;
 
 #[cfg(test)]
 mod tests {
